@@ -11,7 +11,7 @@ from __future__ import annotations
 
 import ast
 
-from .. import ctx
+from .. import ctx, paths
 from ..pattern import canon, find, is_name, match
 from ..project import AnalysisError, call_name, norm
 from ..specmodel import ClassV, FuncV
@@ -199,6 +199,27 @@ def m2_accessor(run, project, L):
                 ok = True
     run.ob("M2", ok, "attributes() enumerates every mask", "attributes() no longer yields all public mask attributes",
            module=mod, node=a, func="attributes", construct="attributes() members")
+    # ... and the decorator hands the type back with attributes() on it (the printer asks `hasattr(value, "attributes")` to
+    # decide whether a value gets bit rows): on every completing path of the decorator, unless the class brings its own
+    dec = R["dec"]
+    cparam = dec.args.args[0].arg
+    n_reg = 0
+    for p in paths.summarise(mod, dec):
+        if p.end == "raise":
+            continue
+        own = p.truth(f"hasattr({cparam}, 'attributes')")
+        reg = [1 for k, e, _ in p.effects if (k == "call" and paths.text(e) == f"setattr({cparam}, 'attributes', {a.name})") or
+               (k == "store" and isinstance(e, ast.Assign) and norm(e.targets[0]) == f"{cparam}.attributes" and norm(e.value) == a.name)]
+        n_reg += 1
+        lab = " & ".join(("" if v else "not ") + a_ for a_, v, _ in p.cond if not a_.startswith(("loop@", "try@")))[:80] or "always"
+        run.ob("M2", bool(reg) or own is True, f"decorator [{lab}]: the type gets attributes()",
+               f"on the path [{lab}] the decorator does not attach attributes() to a type that has none: `hasattr(value, 'attributes')` is "
+               "false for its values and the printer shows no bit rows for them", module=mod, node=p.node or dec, func="tpm_bitfield.decorator",
+               construct="attributes() registration")
+        run.ob("M2", p.end == "return" and p.value_text() == cparam, f"decorator [{lab}]: returns the decorated type",
+               f"on the path [{lab}] the decorator ends with `{p.end} {p.value_text()}`: the name of the attribute type is bound to that "
+               "instead of the type", module=mod, node=p.node or dec, func="tpm_bitfield.decorator", construct="decorator result")
+    run.require(n_reg >= 1, "M2: no completing path through the tpm_bitfield decorator")
 
 
 def m2_rows(run, project, L):
